@@ -330,6 +330,7 @@ type VCase struct {
 	Shape  Shape  `json:"shape"`
 	Intr   bool   `json:"intr"`
 	PFail  bool   `json:"pfail"`
+	Flaky  bool   `json:"flaky"`  // raised in one evaluation and not in another without interruption
 	Strict bool   `json:"strict"` // a shape of the model (G): the outcome is compared both ways
 	Exc    bool   `json:"exc"`
 	Fd     int    `json:"fd"`
@@ -462,7 +463,9 @@ func evaluateN(c *lib.Ctx, r *runner, rd *renderer, shape Shape, v variant, n in
 		if i == 0 {
 			vc.Exc = res.Err != nil
 		} else if !vc.Intr && vc.Exc != (res.Err != nil) {
-			return vc, lib.Infra("%q raised in one evaluation and not in another without interruption", vc.Code)
+			// whether it raises depends on the schedule (reader-gone / closed-port races inside peach,
+			// run-parallel and pipelines): Unspecified for the outcome clause, the resource clause stays
+			vc.Flaky = true
 		}
 		if d != (sample{}) {
 			break // leaked: keep this evaluation's projection
@@ -571,7 +574,10 @@ func run(c *lib.Ctx) error {
 				return err
 			}
 			vc.Strict = true
-			if v.how == "plain" && vc.Exc != g.Fails {
+			if vc.Flaky {
+				c.Inc("schedule_dependent_outcomes", 1)
+			}
+			if v.how == "plain" && !vc.Flaky && vc.Exc != g.Fails {
 				return lib.Infra("%q: raised=%v but the model's FailsP=%v: the rendering does not take the intended path", vc.Code, vc.Exc, g.Fails)
 			}
 			cases = append(cases, vc)
@@ -616,6 +622,9 @@ func run(c *lib.Ctx) error {
 		}
 		cases = append(cases, vc)
 		c.Distinct(shapeKey(shape) + "|" + v.how)
+		if vc.Flaky {
+			c.Inc("schedule_dependent_outcomes", 1)
+		}
 		if vc.Fd != 0 || vc.Go != 0 {
 			leaks++
 		}
